@@ -2006,9 +2006,8 @@ def isin_array(*,
             pass
 
     assume_unique = array_is_unique and other_is_unique
-    func = np.in1d if array.ndim == 1 else np.isin
-
-    result = func(array, other, assume_unique=assume_unique) #type: ignore
+    # np.in1d was removed from NumPy; np.isin accepts 1D and 2D arrays alike
+    result = np.isin(array, other, assume_unique=assume_unique)
     result.flags.writeable = False
 
     return result
